@@ -3,6 +3,7 @@ package props
 import (
 	"fmt"
 	"reflect"
+	"strings"
 
 	"gorgonia.org/tensor"
 	"verifharness/atlas"
@@ -37,6 +38,16 @@ func applyFn(d ref.DT) interface{} {
 	ft := reflect.FuncOf([]reflect.Type{t}, []reflect.Type{t}, false)
 	return reflect.MakeFunc(ft, func(in []reflect.Value) []reflect.Value {
 		return []reflect.Value{reflect.ValueOf(applyModel(d, in[0].Interface()))}
+	}).Interface()
+}
+
+// applyFnErr is applyFn with the error-returning signature func(T) (T, error); it never fails.
+func applyFnErr(d ref.DT) interface{} {
+	t := d.D.Type
+	et := reflect.TypeOf((*error)(nil)).Elem()
+	ft := reflect.FuncOf([]reflect.Type{t}, []reflect.Type{t, et}, false)
+	return reflect.MakeFunc(ft, func(in []reflect.Value) []reflect.Value {
+		return []reflect.Value{reflect.ValueOf(applyModel(d, in[0].Interface())), reflect.Zero(et)}
 	}).Interface()
 }
 
@@ -82,9 +93,14 @@ func runC12(r *core.Run) {
 				continue
 			}
 			for _, lay := range atlas.L5 {
-				for _, mode := range []string{"safe", "unsafe", "reuse", "incr", "wrongsig"} {
-					d, shape, lay, mode := d, shape, lay, mode
+				for _, mode := range []string{"safe", "unsafe", "reuse", "incr", "wrongsig", "safe|err", "unsafe|err", "reuse|err", "incr|err"} {
+					// "|err": the user function has the error-returning signature func(T) (T, error) (and never fails)
+					withErr := strings.HasSuffix(mode, "|err")
+					d, shape, lay, mode := d, shape, lay, strings.TrimSuffix(mode, "|err")
 					id := fmt.Sprintf("C12|Apply|%s|%s|%s|%s", d.Name, shapeStr(shape), lay, mode)
+					if withErr {
+						id += "|err"
+					}
 					if r.ReplayCase != "" && id != r.ReplayCase {
 						continue
 					}
@@ -118,6 +134,9 @@ func runC12(r *core.Run) {
 							opts = append(opts, tensor.WithIncr(dst))
 						}
 						fn := applyFn(d)
+						if withErr {
+							fn = applyFnErr(d)
+						}
 						if mode == "wrongsig" {
 							other := ref.Float64
 							if d.Name == "float64" {
